@@ -277,6 +277,8 @@ type scObs struct {
 	parked, later [][2]int64 // (call kind, result class) of the calls that were parked at the close / issued after it
 	routing       int64      // entries left in the side's transport after the closing period
 	peer          string     // what the peer recorded if a copy of the close reached it in time: option (class, code)
+	delivered     bool       // a copy of the CONNECTION_CLOSE reached the peer before the peer closed for another reason
+	sentFirst, hs bool       // Conn.sentFirstPacket, Conn.handshakeComplete
 }
 
 var scCallKinds = map[string]int64{"Read": 0, "Write": 1, "AcceptStream": 2, "AcceptUniStream": 3, "OpenStreamSync": 4, "OpenUniStreamSync": 5,
@@ -311,7 +313,7 @@ func (o *scObs) term() string {
 	if peer == "" {
 		peer = "None"
 	}
-	return u.App("mkSide", u.B(o.client), errPair(k, code), u.B(o.immediate), u.B(o.sent), pl(o.parked), pl(o.later), u.Z(o.routing), peer)
+	return u.App("mkSide", u.B(o.client), errPair(k, code), u.B(o.immediate), u.B(o.sentFirst), u.B(o.hs), u.B(o.sent), pl(o.parked), pl(o.later), u.Z(o.routing), u.B(o.delivered), peer)
 }
 
 func runOneSimClose(c scCase) (fails []monFail, info string, term string) {
@@ -1091,6 +1093,7 @@ func runOneSimClose(c scCase) (fails []monFail, info string, term string) {
 			}
 			obs[i].cause = cause
 			_, obs[i].immediate, _ = quic.VerifRecordedCloseErr(conns[i])
+			obs[i].sentFirst, obs[i].hs = snaps[i].SentFirstPacket, snaps[i].HandshakeComplete
 			if !silent && i == closer {
 				obs[i].sent = len(after) > 0
 			} else if !(c.Cause == "stateless-reset" && i == 1) { // (the restarted transport answers from the same address)
@@ -1173,6 +1176,9 @@ func runOneSimClose(c scCase) (fails []monFail, info string, term string) {
 				if delivered && (pk == ekAppRemote || pk == ekTransportRemote) {
 					obs[i].peer = u.Opt(true, errPair(pk, pcode))
 				}
+				// (with a lost first copy and a server that answers with stateless resets after its closing period, a reset can
+				// overtake the retransmitted copy)
+				obs[i].delivered = delivered && !(pk == ekStatelessReset && c.DropClose > 0)
 				if delivered && pk != ekAppRemote && pk != ekTransportRemote && !(pk == ekStatelessReset && c.DropClose > 0) {
 					fail("simclose/peer-close", fmt.Sprintf("a CONNECTION_CLOSE of the %s was delivered but the peer recorded %q", sd.name, pc))
 				}
